@@ -685,6 +685,11 @@ namespace sim
 			asio::high_resolution_timer m_recv_timer;
 			asio::high_resolution_timer m_send_timer;
 
+			// the expiry of m_send_timer may already be queued for execution
+			// when this socket is destroyed. The function waiting for it holds
+			// a weak reference to this token
+			std::shared_ptr<int> m_alive = std::make_shared<int>(0);
+
 			// this is the incoming queue of packets for each socket
 			std::list<aux::packet, aux::mallocator<aux::packet>> m_incoming_queue;
 
